@@ -588,7 +588,7 @@ fn stmt(rng: &mut Rng, a: &mut Asm, cfg: &StructCfg, depth: u32, budget: &mut i3
             // (An algebraic zero-test does not work here: the optimiser proves k*x - k1*x - k2*x = 0.)
             let (x, y) = two(rng);
             let t = k + rng.range(0, cfg.scratch - 1);
-            let kk = *rng.pick(&[2i64, 3, 7, 8, 15, 16, 17, 31, 32, 33, 63, 64, 65, 127, 128, 129, -127, -128, -129]);
+            let kk = *rng.pick(&[2i64, 3, 7, 8, 15, 16, 17, 31, 32, 33, 63, 64, 65, 127, 128, 129, -127, -128, -129, 255, 256, 257, 300, -256]);
             if rng.chance(2, 3) {
                 a.input(x);
             }
@@ -987,6 +987,20 @@ pub fn roamer(rng: &mut Rng, big: bool) -> String {
                 a.raw(&">".repeat(stride as usize));
                 a.raw(&format!("[{}]", ">".repeat(stride as usize)));
                 a.raw("+.");
+            }
+            9 if rng.coin() => {
+                // a trail of cells holding 256 (zero in their low byte on wide cells), then a scan over it
+                let n = rng.range(1, 6);
+                let right = rng.coin();
+                for _ in 0..n {
+                    // cell = 16*16 using the neighbour as a counter
+                    if right {
+                        a.raw(">++++++++++++++++[<++++++++++++++++>-]<>");
+                    } else {
+                        a.raw("<++++++++++++++++[>++++++++++++++++<-]><");
+                    }
+                }
+                a.raw(if right { "<[<]>+." } else { ">[>]<+." });
             }
             6 => {
                 // input-driven walk: read n, walk n cells in a direction leaving marks
